@@ -204,7 +204,7 @@ def ds3(prog, rr):
 
 
 # --------------------------------------------------------------------------------------- SH6
-@rule("SH6", ["C16", "C07"], "the rollback visitor reaches every block the installing builders rewrite", engine="XS", floor=3)
+@rule("SH6", ["C16", "C07", "C09", "C15"], "the rollback visitor reaches every block the installing builders rewrite", engine="XS", floor=3)
 def sh6(prog, rr):
     inst = ["ArrayConstraintBuilder", "DistConstraintBuilder"]
     rb = prog.cls("ConstraintOverrideRollbackVisitor")
@@ -308,7 +308,7 @@ def cv8b(prog, rr):
 
 
 # --------------------------------------------------------------------------------------- FOLD2
-@rule("FOLD2", ["C20", "C14", "C01"], "list accumulators on the solve path are extended, not replaced, inside their loop", engine="DF", floor=5)
+@rule("FOLD2", ["C20", "C14", "C01", "C04"], "list accumulators on the solve path are extended, not replaced, inside their loop", engine="DF", floor=5)
 def fold2(prog, rr):
     funcs = [f for f in solve_path(prog) if model_layer(f.module.name)]
     n = 0
